@@ -22,7 +22,9 @@ VARIANTS.update({('N%d' % n): {'POTASSCO_VERIF_BUF_SIZE': n} for n in SMALL})
 RULE = ('cases = (reader/pipeline mode, option bits, arbitrary bytes); streams: byte soup, token soup, grammar-aware mutations of valid aspif / smodels / '
         'ground-text inputs (truncate, splice, flip, duplicate, numbers at 2^31/2^32/2^63/2^64 boundaries, announced lengths larger than the rest, NUL, CR only), '
         'valid programs; valid multi-directive / multi-step programs with small atoms through every lpconvert pipeline and the binary under every option set '
-        '(a third damaged in one place); first rules whose head fills the rule builder\'s memory block exactly; each at the shipped buffer size and hooked sizes 16/67; '
+        '(a third damaged in one place); first rules whose head fills the rule builder\'s memory block exactly, long heads (9..14, 20+) / bodies (5..12) in random programs; '
+        'multi-step theory programs (1-4 steps) incl. steps that define terms/elements but no theory atom and later steps that re-define earlier ids and use them; '
+        'each at the shipped buffer size and hooked sizes 16/67; '
         'non-trivial = the reader delivered at least one directive, reported an error after the header, or the pipeline wrote output; distinct = distinct (mode, opts, bytes)')
 TRUSTED_BASE = ['ASan/UBSan/LSan as the detector of memory errors, UB and leaks in the compiled readers and lpconvert (exploration-strength for the runtime part)',
                 'props/C04.py contract oracle, output sanity checks and the python smodels reference of props/C07.py used for the smodels->aspif output',
@@ -550,12 +552,20 @@ def ground_text(rnd):
     return ('\n'.join(st) + '\n').encode()
 
 
-def coherent_theory_program(rnd):
-    """A valid (mostly incremental) program whose theory data is referentially consistent: terms before use, elements with and
-    without conditions, atoms (with/without guard) that reference elements and terms defined in the SAME or an EARLIER step."""
-    steps = rnd.choice([1, 2, 2, 3])
+def coherent_theory_program(rnd, redefine=None):
+    """A valid (mostly incremental) program of 1-4 steps whose theory data is referentially consistent and acyclic: terms before use,
+    elements with and without conditions, atoms (with/without guard) that reference elements and terms defined in the SAME or an EARLIER
+    step.  With `redefine` (multi-step programs only): some steps define terms / elements but NO theory atom, and later steps RE-DEFINE term
+    and element ids of earlier steps with different content (legal: an id need only be unique within one step) and then use them in atoms
+    (seeded change C06-r5: the writer's theory frame must be closed by every step, not only by steps that wrote an atom).
+    Acyclicity under redefinition: a compound term only refers to term ids smaller than its own."""
+    steps = rnd.choice([1, 2, 2, 3, 3, 4])
+    if redefine is None:
+        redefine = rnd.random() < 0.45
+    redefine = redefine and steps > 1
     prog = [(1, steps > 1)]
-    terms, elems, syms = [], [], []       # ids defined so far (all steps)
+    kind = {}                             # term id -> 'n' | 's' | 'c' : the CURRENT definition (all steps)
+    elems = []                            # element ids defined so far (all steps)
     nid = [0]
 
     def fresh():
@@ -563,29 +573,48 @@ def coherent_theory_program(rnd):
         return nid[0] - 1
     for st in range(steps):
         prog.append((2,))
+        new_t, new_e = set(), set()       # ids (re)defined in this step: may not be defined again in it
+        noatom = redefine and st < steps - 1 and rnd.random() < (0.7 if st == 0 else 0.4)
+
+        def pick(table, new):
+            """an id to define now: a fresh one, or - under `redefine` - one of an earlier step that this step has not defined yet"""
+            old = [x for x in table if x not in new]
+            i = rnd.choice(old) if (redefine and old and rnd.random() < 0.55) else fresh()
+            new.add(i)
+            return i
         for _ in range(rnd.randint(0, 2)):
             prog.append(C.r_rule(rnd, 5))
         for _ in range(rnd.randint(1, 4)):
             k = rnd.random()
-            t = fresh()
-            if k < 0.4 or not terms:
-                prog.append((13, t, rnd.choice([0, 1, 42, -7, 2 ** 31 - 1])))
+            t = pick(kind, new_t)
+            below = [x for x in kind if x < t]
+            if k < 0.4 or not below:
+                prog.append((13, t, rnd.choice([0, 1, 42, -7, 2 ** 31 - 1, st + 10])))
+                kind[t] = 'n'
             elif k < 0.7:
                 nm = rnd.choice([b'p', b'f', b'sum', b'>=', b'+', b'x'])
-                prog.append((14, t, nm)); syms.append(t)
+                prog.append((14, t, nm)); kind[t] = 's'
             else:
+                syms = [x for x in below if kind[x] == 's']
                 base = rnd.choice(syms) if syms and rnd.random() < 0.7 else rnd.choice([-1, -2, -3])
-                prog.append((15, t, base, [rnd.choice(terms) for _ in range(rnd.randint(0, 3))]))
-            terms.append(t)
-        if not syms:
-            t = fresh(); prog.append((14, t, b'p')); syms.append(t); terms.append(t)
-        for _ in range(rnd.randint(0, 3) if (st == 0 or rnd.random() < 0.5) else 0):   # later steps often only RE-USE earlier elements
-            e = fresh()
+                prog.append((15, t, base, [rnd.choice(below) for _ in range(rnd.randint(0, 3))]))
+                kind[t] = 'c'
+        if not any(v == 's' for v in kind.values()):
+            t = fresh(); prog.append((14, t, b'p')); kind[t] = 's'; new_t.add(t)
+        terms = sorted(kind)
+        syms = [x for x in terms if kind[x] == 's']
+        for _ in range(rnd.randint(0, 3) if (st == 0 or redefine or rnd.random() < 0.5) else 0):   # later steps often only RE-USE earlier elements
+            e = pick(elems, new_e)
             cond = [C.r_lit(rnd, 5) for _ in range(rnd.choice([0, 1, 2, 2]))]
-            prog.append((16, e, [rnd.choice(terms) for _ in range(rnd.randint(0, 2))], cond)); elems.append(e)
-        for _ in range(rnd.randint(1, 2)):
+            prog.append((16, e, [rnd.choice(terms) for _ in range(rnd.randint(0, 2))], cond))
+            if e not in elems:
+                elems.append(e)
+        for _ in range(0 if noatom else rnd.randint(1, 2)):
             es = [rnd.choice(elems) for _ in range(rnd.randint(0, 2))] if elems else []
-            if rnd.random() < 0.3 and len(syms) and terms:
+            if redefine and rnd.random() < 0.6:
+                # prefer what this step has just (re)defined
+                es = [e for e in es if e in new_e] + [e for e in sorted(new_e)][:rnd.randint(0, 2)]
+            if rnd.random() < 0.3:
                 prog.append((18, rnd.choice([0, rnd.randint(6, 9)]), rnd.choice(syms), es, rnd.choice(syms), rnd.choice(terms)))
             else:
                 prog.append((17, rnd.choice([0, rnd.randint(6, 9)]), rnd.choice(syms), es))
@@ -689,6 +718,21 @@ def gen(seed, tier):
         # incremental program whose second step re-uses a conditional theory element of the first (conditions must outlive the step)
         (4, 0, b'asp 1 0 0 incremental\n9 1 0 1 p\n9 0 1 7\n9 0 2 8\n9 4 0 1 1 1 1\n9 4 1 1 2 2 2 -3\n9 5 0 0 2 0 1\n0\n9 0 3 9\n9 4 2 1 3 1 4\n9 5 0 0 2 2 1\n0\n'),
         (7, 4, b'asp 1 0 0 incremental\n9 1 0 1 p\n9 0 1 7\n9 0 2 8\n9 4 0 1 1 1 1\n9 4 1 1 2 2 2 -3\n9 5 0 0 2 0 1\n0\n9 0 3 9\n9 4 2 1 3 1 4\n9 5 0 0 2 2 1\n0\n'),
+        # seeded change C04-r5: first rule = choice over 11 head atoms (they fill the rule builder's initial 64-byte block exactly) with a
+        # sum body, so the bound is the element that moves the block; aspif and ground-text spelling, readers and pipelines
+        (0, 0, b'asp 1 0 0\n1 1 11 1 2 3 4 5 6 7 8 9 10 11 1 1 1 12 1\n0\n'),
+        (3, 0, b'asp 1 0 0\n1 1 11 1 2 3 4 5 6 7 8 9 10 11 1 1 1 12 1\n0\n'),
+        (3, 1, b'asp 1 0 0\n1 1 11 1 2 3 4 5 6 7 8 9 10 11 1 1 1 12 1\n0\n'),
+        (4, 0, b'asp 1 0 0\n1 1 11 1 2 3 4 5 6 7 8 9 10 11 1 1 1 12 1\n0\n'),
+        (7, 4, b'asp 1 0 0\n1 1 11 1 2 3 4 5 6 7 8 9 10 11 1 1 1 12 1\n0\n'),
+        (2, 0, b'{x1;x2;x3;x4;x5;x6;x7;x8;x9;x10;x11} :- 1 {x12=1}.\n'),
+        (2, 0, b'x1|x2|x3|x4|x5|x6|x7|x8|x9|x10|x11|x12 :- 2 {x13=1; not x14=2}.\n'),
+        (0, 0, b'asp 1 0 0\n1 0 1 1 0 1 2\n1 0 12 1 2 3 4 5 6 7 8 9 10 11 12 1 2 2 13 1 -14 2\n0\n'),
+        # seeded change C06-r5: the base step defines theory terms and an element but no theory atom; step 1 re-defines those ids (legal)
+        # and uses them in an atom; step 2 once more - through the reader, the text pipeline and the binary
+        (0, 0, b'asp 1 0 0 incremental\n1 1 1 1 0 0\n9 1 0 4 load\n9 0 1 10\n9 4 0 1 1 0\n0\n9 0 1 20\n9 4 0 1 1 1 1\n9 5 0 0 1 0\n0\n9 0 1 30\n9 4 0 1 1 0\n9 5 0 0 1 0\n0\n'),
+        (4, 0, b'asp 1 0 0 incremental\n1 1 1 1 0 0\n9 1 0 4 load\n9 0 1 10\n9 4 0 1 1 0\n0\n9 0 1 20\n9 4 0 1 1 1 1\n9 5 0 0 1 0\n0\n9 0 1 30\n9 4 0 1 1 0\n9 5 0 0 1 0\n0\n'),
+        (7, 4, b'asp 1 0 0 incremental\n1 1 1 1 0 0\n9 1 0 4 load\n9 0 1 10\n9 4 0 1 1 0\n0\n9 0 1 20\n9 4 0 1 1 1 1\n9 5 0 0 1 0\n0\n9 0 1 30\n9 4 0 1 1 0\n9 5 0 0 1 0\n0\n'),
     ]
     for m, o, d in fixed:
         for v in (0, 1, 2):
